@@ -875,6 +875,17 @@ def entry_linearity(ctx, b):
     # the slot rule (C06.2), not by linearity
     is_sink = (b.kind == "assoc_fn" and b.impl_self and b.impl_self.get("name") == r.entry and (b.j.get("inputs") or [{}])[0].get("name") == r.entry
                and r.is_entry_ty((b.j.get("inputs") or [{}])[0]))
+    # blocks from which a return is reachable along normal edges (the others only lead to diverging calls)
+    can_return = set()
+    for rb in g.return_blocks():
+        can_return.add(rb)
+    changed_ = True
+    while changed_:
+        changed_ = False
+        for bi_ in range(len(b.blocks)):
+            if bi_ not in can_return and any(s_ in can_return for s_ in g.nsucc[bi_]):
+                can_return.add(bi_)
+                changed_ = True
     inn = {0: frozenset(i for i in elocals if 1 <= i <= b.arg_count and not (is_sink and i == 1))}
     work = [0]
     leaks = []
@@ -911,7 +922,9 @@ def entry_linearity(ctx, b):
                     if carries:
                         H.add(root)
             elif st["k"] == "dead":
-                if st["l"] in H:
+                if st["l"] in H and bb not in can_return:
+                    H.discard(st["l"])      # on the way to a diverging call (unreachable!/panic): not a normal path, leaks are allowed there
+                elif st["l"] in H:
                     key = (st["l"], bb)
                     if key not in seen_leak:
                         seen_leak.add(key)
